@@ -8,6 +8,7 @@
 #include "common.hh"
 #include <aiounicast_select.hh>
 #include <functional>
+#include <sstream>
 #include <set>
 #include <map>
 #include <sys/wait.h>
@@ -19,7 +20,15 @@
 
 struct ForkResult { std::vector<std::string> text; std::vector<int> status; bool timed_out = false; double wall = 0; std::string errlog;
 	// the library reports every expired time-out on stderr; a run with such a report is outside the synchrony assumption
-	bool timing_trouble() const { return timed_out || errlog.find("timeout") != std::string::npos || errlog.find("got EOF") != std::string::npos; } };
+	bool timing_trouble() const { return timed_out || errlog.find("timeout") != std::string::npos || errlog.find("got EOF") != std::string::npos; }
+	// the same, but time-outs that expired while waiting for a party of `expected` (scripted to be silent) do not count
+	bool timing_trouble(const std::set<size_t> &expected) const {
+		if (timed_out || errlog.find("got EOF") != std::string::npos) return true;
+		std::istringstream in(errlog); std::string l;
+		while (std::getline(in, l)) { size_t p = l.find("timeout"); if (p == std::string::npos) continue;
+			size_t k = l.find_last_not_of("0123456789"); if (k == std::string::npos || k + 1 >= l.size()) return true;
+			if (!expected.count(strtoul(l.c_str() + k + 1, 0, 10))) return true; }
+		return false; } };
 
 typedef std::function<void(size_t, aiounicast *, CachinKursawePetzoldShoupRBC *, std::ostream &)> party_fn;
 
@@ -35,7 +44,8 @@ struct Deviation {
 	size_t pair_base = 0;             // index (per recipient) of the first message of the tampered pair
 	int answer = 0;                   // complaint answer: 0 correct, 1 incorrect (revealed share + 1), 2 none (silent from there on)
 	int opening = 0;                  // opening of the own share: 0 correct, 1 mismatching (+1), 2 none (silent from there on)
-	bool active() const { return !wrong.empty() || !drop.empty() || answer || opening; }
+	bool bad_recon = false;           // the shares this party contributes to public reconstructions are broadcast as share + 1
+	bool active() const { return !wrong.empty() || !drop.empty() || answer || opening || bad_recon; }
 	std::string str() const { std::string r = "wrong={"; for (size_t w : wrong) r += std::to_string(w) + " "; r += "} drop={"; for (size_t w : drop) r += std::to_string(w) + " ";
 		return r + "} answer=" + std::to_string(answer) + " opening=" + std::to_string(opening); }
 };
